@@ -132,10 +132,7 @@ func readSnapshotFromEtcd(ctx context.Context, endpoints []string) (metadata.Clu
 
 // BuildClusterMetadata converts CRD state into the metadata snapshot consumed by brokers.
 func BuildClusterMetadata(cluster *kafscalev1alpha1.KafscaleCluster, topics []kafscalev1alpha1.KafscaleTopic) metadata.ClusterMetadata {
-	replicas := int32(1)
-	if cluster.Spec.Brokers.Replicas != nil && *cluster.Spec.Brokers.Replicas > 0 {
-		replicas = *cluster.Spec.Brokers.Replicas
-	}
+	replicas := desiredBrokerReplicas(cluster)
 	brokers := make([]protocol.MetadataBroker, replicas)
 	brokerPort := int32(9092)
 	if cluster.Spec.Brokers.AdvertisedPort != nil && *cluster.Spec.Brokers.AdvertisedPort > 0 {
